@@ -108,8 +108,10 @@ class ConcurrentTestSuite(unittest.TestSuite):
         try:
             try:
                 test.run(process_result)
-            except Exception:
-                # The run logic itself failed.
+            except BaseException:
+                # The run logic itself failed.  (SystemExit included: this
+                # is a worker thread, where it would end the thread silently
+                # and the rest of the sub-suite would be lost without trace.)
                 case = testtools.ErrorHolder("broken-runner", error=sys.exc_info())
                 case.run(process_result)
         finally:
@@ -194,8 +196,9 @@ class ConcurrentStreamTestSuite:
         try:
             try:
                 test.run(process_result)
-            except Exception:
-                # The run logic itself failed.
+            except BaseException:
+                # The run logic itself failed (SystemExit included, see
+                # ConcurrentTestSuite._run_test).
                 case = testtools.ErrorHolder(
                     f"broken-runner-'{route_code}'", error=sys.exc_info()
                 )
